@@ -327,6 +327,10 @@ func TestVerifC20Len(t *testing.T) {
 			if cur < last {
 				c.Violatef(map[string]string{"kind": "nonce_decreased"}, "stored nonce decreased %d -> %d after a %d-byte seqno", last, cur, l)
 			}
+			if res == ValidationAccept && l < 8 {
+				// fewer than eight bytes (or none at all) is not a sequence number greater than anything
+				c.Violatef(map[string]string{"kind": "short_seqno_accepted", "seqno_len": fmt.Sprint(l)}, "a %d-byte seqno was accepted (history %v)", l, hist)
+			}
 			if res == ValidationAccept && l == 8 && binary.BigEndian.Uint64(b) <= last {
 				c.Violatef(map[string]string{"kind": "replay_accepted"}, "accepted %d with nonce %d", binary.BigEndian.Uint64(b), last)
 			}
